@@ -262,7 +262,7 @@ pub fn generate(thorough: bool, seed: u64, out: &mut dyn Write) {
     }
 
     // --- random sheets -----------------------------------------------------------------------
-    let n = if thorough { 12_000 } else { 260 };
+    let n = if thorough { 60_000 } else { 1_200 };
     for i in 0..n {
         let sub = rng.chance(1, 2);
         let ncols = match rng.below(4) { 0 => rng.range(1, 3), 1 | 2 => rng.range(3, 10), _ => rng.range(10, 24) } as usize;
@@ -278,7 +278,7 @@ pub fn generate(thorough: bool, seed: u64, out: &mut dyn Write) {
     }
 
     // --- wide sub-row strides: i * data_offset + 2 (i + 1) crosses 65 535 ----------------------
-    let m = if thorough { 300 } else { 14 };
+    let m = if thorough { 1_600 } else { 32 };
     for i in 0..m {
         let ncols = rng.range(1, 8) as usize;
         let (region, nsub) = match i % 4 {
